@@ -166,6 +166,11 @@ ANNOTATION_ROW_TEMPLATE = """    <TR>
 ANNOTATION_END_ROW = "    </TABLE>>"
 
 
+def _dot_quoted(text):
+    # a DOT double-quoted string: escape backslashes and double quotes
+    return '"%s"' % str(text).replace("\\", "\\\\").replace('"', '\\"')
+
+
 def htlm_link_if_uri(value):
     try:
         uri = value.uri
@@ -225,9 +230,11 @@ def prov_to_dot(
             ann_rows.extend(
                 ANNOTATION_ROW_TEMPLATE
                 % (
-                    attr.uri,
+                    escape(attr.uri),
                     escape(str(attr)),
-                    ' href="%s"' % value.uri if isinstance(value, Identifier) else "",
+                    ' href="%s"' % escape(value.uri)
+                    if isinstance(value, Identifier)
+                    else "",
                     escape(
                         str(value)
                         if not isinstance(value, datetime)
@@ -247,9 +254,9 @@ def prov_to_dot(
         def _add_bundle(bundle):
             count[2] += 1
             subdot = pydot.Cluster(
-                graph_name="c%d" % count[2], URL=f'"{bundle.identifier.uri}"'
+                graph_name="c%d" % count[2], URL=_dot_quoted(bundle.identifier.uri)
             )
-            subdot.set_label('"%s"' % str(bundle.identifier))
+            subdot.set_label(_dot_quoted(bundle.identifier))
             _bundle_to_dot(subdot, bundle)
             dot.add_subgraph(subdot)
             return subdot
@@ -259,22 +266,24 @@ def prov_to_dot(
             node_id = "n%d" % count[0]
             if use_labels:
                 if record.label == record.identifier:
-                    node_label = f'"{record.label}"'
+                    node_label = _dot_quoted(record.label)
                 else:
                     # Fancier label if both are different. The label will be
                     # the main node text, whereas the identifier will be a
                     # kind of subtitle.
                     node_label = (
-                        f"<{record.label}<br />"
+                        f"<{escape(str(record.label))}<br />"
                         f'<font color="#333333" point-size="10">'
-                        f'{record.identifier}</font>>'
+                        f"{escape(str(record.identifier))}</font>>"
                     )
             else:
-                node_label = f'"{record.identifier}"'
+                node_label = _dot_quoted(record.identifier)
 
             uri = record.identifier.uri
             style = DOT_PROV_STYLE[record.get_type()]
-            node = pydot.Node(node_id, label=node_label, URL='"%s"' % uri, **style)
+            node = pydot.Node(
+                node_id, label=node_label, URL=_dot_quoted(uri), **style
+            )
             node_map[uri] = node
             dot.add_node(node)
 
@@ -285,11 +294,13 @@ def prov_to_dot(
         def _add_generic_node(qname, prov_type=None):
             count[0] += 1
             node_id = "n%d" % count[0]
-            node_label = f'"{qname}"'
+            node_label = _dot_quoted(qname)
 
             uri = qname.uri
             style = GENERIC_NODE_STYLE[prov_type] if prov_type else DOT_PROV_STYLE[0]
-            node = pydot.Node(node_id, label=node_label, URL='"%s"' % uri, **style)
+            node = pydot.Node(
+                node_id, label=node_label, URL=_dot_quoted(uri), **style
+            )
             node_map[uri] = node
             dot.add_node(node)
             return node
